@@ -250,6 +250,16 @@ def check128(m: str, acc: Acc, sample=False, light=False):
         if cs_lib != cs_ref:
             acc.violation("cs5_calculate_differs_from_reference", {**case, "library": cs_lib, "reference": cs_ref},
                           "FiveBitChecksum.calculate != (sum of the 9 octets) mod 31")
+        # ... and the library's own verification of the checksum it reads back accepts it (and nothing else)
+        if len(cs_read) == 5 and int(cs_read, 2) < 31:
+            try:
+                calls += 2
+                if FiveBitChecksum.verify(mb.tobytes(), int(cs_read, 2)) is not True and int(cs_read, 2) == cs_ref:
+                    acc.violation("cs5_verify_rejects_the_checksum_of_the_message", {**case, "checksum": cs_ref})
+                if FiveBitChecksum.verify(mb.tobytes(), (cs_ref + 1) % 31):
+                    acc.violation("cs5_verify_accepts_another_checksum", {**case, "checksum": (cs_ref + 1) % 31})
+            except Exception as e:  # noqa: BLE001
+                acc.violation("cs5_verify_exception:" + exc_sig(e), {**case, "checksum": cs_ref}, repr(e))
         palin = format(cs_lib, "05b") == format(cs_lib, "05b")[::-1] if 0 <= cs_lib < 32 else False
         if len(cs_read) != 5 or int(cs_read, 2) != cs_lib:
             rev = len(cs_read) == 5 and int(cs_read[::-1], 2) == cs_lib
